@@ -671,6 +671,11 @@ func (r *yieldRewriter) rewriteReturnAndForSwitchInitStmtInYieldFun(body *ast.Bl
 				c.Replace(X.Return(r.CallReturn()))
 			}
 
+		case *ast.AssignStmt:
+			if inYieldFunc() && n.Tok == token.DEFINE {
+				r.rewriteRedeclaration(c, n)
+			}
+
 		case *ast.ForStmt:
 			if inYieldFunc() && isDefineStmt(n.Init) {
 				init := n.Init
@@ -696,6 +701,35 @@ func (r *yieldRewriter) rewriteReturnAndForSwitchInitStmtInYieldFun(body *ast.Bl
 		}
 		return true
 	})
+}
+
+// short variable declaration may redeclare (assign to) variables declared earlier in the same block,
+// but stmts following a yield are moved into the callback func lit (another scope),
+// where the redeclaration would declare a new variable shadowing the original one.
+//
+//	x, y := e1, e2 // x declared earlier in the same block
+//	=>
+//	ɐ, y := e1, e2
+//	x = ɐ
+func (r *yieldRewriter) rewriteRedeclaration(c *astutil.Cursor, n *ast.AssignStmt) {
+	defs := r.pkg.TypeInfo().Defs
+	var lhs, rhs []ast.Expr
+	for i, expr := range n.Lhs {
+		id, ok := expr.(*ast.Ident)
+		if !ok || !id.Pos().IsValid() {
+			continue // generated node
+		}
+		if _, isDef := defs[id]; isDef {
+			continue // new variable, or blank
+		}
+		tmp := X.Ident(r.gensym(cstRedeclVar))
+		n.Lhs[i] = tmp
+		lhs = append(lhs, id)
+		rhs = append(rhs, tmp)
+	}
+	if len(lhs) > 0 && c.Index() >= 0 {
+		c.InsertAfter(&ast.AssignStmt{Lhs: lhs, Tok: token.ASSIGN, Rhs: rhs})
+	}
 }
 
 //	for {
